@@ -7,18 +7,20 @@
    sequence; `out_match` is equality, except where the specification leaves the result open
    (reads below a DiscardUpto offset).
 
-   The code departs from the byte array when a file holds bytes beyond fileOffset ("stale tail":
-   after SetOffset below the flushed size the file is never truncated; preallocated files):
-   readAt does not clamp the file read to fileOffset and Open takes the file end as the size.
-   `s_risky` marks exactly the steps that can observe a stale tail (a ReadAt across fileOffset
-   while the file is longer, a reopen while the file is longer); `s_clean` = no such step.
+   Since the fix "singleapp readAt never reads the file beyond the logical file offset" reads are
+   exact.  What is left: a file may hold bytes beyond fileOffset (SetOffset below the flushed size
+   never truncates; preallocation) and Open takes the file end as the size, so a reopen in that
+   situation finds a larger size (`s_risky`, `s_clean` = no such reopen); multiapp's SetOffset
+   into an earlier chunk leaves the later chunk FILES, which a ReadAt running past the end of the
+   current chunk walks into and which Open takes as current (`m_risky`, `m_clean`).
    Not in the models: compression, Copy, failing OS calls, handle-cache eviction, concurrency. *)
 From V Require Import App.Spec App.Single App.SingleProofs App.SingleSim.
 From V Require Import App.Multi App.MultiProofs App.MultiRead App.MultiSim.
 
 (* singleapp: for EVERY operation sequence and every valid option combination (buffer size,
-   retryableSync, autoSync, preallocation, read-only reopen), as long as no step observes a stale
-   tail, every returned offset / byte string / size / error class equals the byte array's *)
+   retryableSync, autoSync incl. the ErrBufferFull mode, preallocation, read-only reopen), as long
+   as no reopen happens while the file is longer than fileOffset, every returned offset / byte
+   string / size / error class equals the byte array's *)
 Theorem C17_single_refines_log_partial : forall p meta o ops,
   opts_valid o = true ->
   s_clean (s_create p meta o) ops = true ->
@@ -26,34 +28,32 @@ Theorem C17_single_refines_log_partial : forall p meta o ops,
 Proof. exact single_refines_log_partial. Qed.
 Print Assumptions C17_single_refines_log_partial.
 
-(* the full statement (without `s_clean`) is false on the current code: append 10 bytes, Flush,
-   SetOffset 4, append "xy", ReadAt(6 bytes, 0) returns the stale "45" instead of "xy" *)
+(* in particular, within one session (any sequence without a reopen) the refinement is unconditional:
+   rewinds below the flushed size, stale tails and preallocation included *)
+Theorem C17_single_refines_log_session : forall p meta o ops,
+  opts_valid o = true -> no_reopen ops = true ->
+  Forall2 out_match (s_run (s_create p meta o) ops) (spec_run (log_init (zeros p) meta o) ops).
+Proof. exact single_refines_log_session. Qed.
+Print Assumptions C17_single_refines_log_session.
+
+(* the full statement (any reopen allowed) is false on the current code: append 10 bytes, Flush,
+   SetOffset 4, Close, reopen, Size = 10 where the byte array has 4 bytes *)
 Theorem C17_single_refines_log_refuted : exists p meta o ops,
   opts_valid o = true /\
   ~ Forall2 out_match (s_run (s_create p meta o) ops) (spec_run (log_init (zeros p) meta o) ops).
 Proof. exact single_refines_log_refuted. Qed.
 Print Assumptions C17_single_refines_log_refuted.
 
-(* rewinding then appending overwrites: in EVERY reachable state (stale tail or not), when
-   SetOffset n and Append bs succeed, the append is at offset n and, once flushed, reading
+(* rewinding then appending overwrites: in EVERY reachable state (stale tail or not, flushed or
+   still buffered), when SetOffset n and Append bs succeed, the append is at offset n and reading
    |bs| bytes at n returns bs *)
-Theorem C17_single_rewind_then_append_overwrites_flushed : forall p meta o ops n bs off,
+Theorem C17_single_rewind_then_append_overwrites : forall p meta o ops n bs off,
   opts_valid o = true ->
   let s := s_state (s_create p meta o) ops in
   s_run s [SetOffset n; Append bs] = [OOk; OApp off (len bs)] ->
-  s_run s [SetOffset n; Append bs; Flush; ReadAt (len bs) n] = [OOk; OApp n (len bs); OOk; ORead bs false].
-Proof. exact single_rewind_then_append_overwrites_flushed. Qed.
-Print Assumptions C17_single_rewind_then_append_overwrites_flushed.
-
-(* without the Flush it is false on the current code (append larger than the write buffer after
-   a rewind below fileOffset: the part still buffered is masked by stale file bytes) *)
-Theorem C17_single_rewind_then_append_overwrites_refuted : exists p meta o ops n bs,
-  opts_valid o = true /\
-  let s := s_state (s_create p meta o) ops in
-  s_run s [SetOffset n; Append bs] = [OOk; OApp n (len bs)] /\
-  s_run s [SetOffset n; Append bs; ReadAt (len bs) n] <> [OOk; OApp n (len bs); ORead bs false].
-Proof. exact single_rewind_then_append_overwrites_refuted. Qed.
-Print Assumptions C17_single_rewind_then_append_overwrites_refuted.
+  s_run s [SetOffset n; Append bs; ReadAt (len bs) n] = [OOk; OApp n (len bs); ORead bs false].
+Proof. exact single_rewind_then_append_overwrites. Qed.
+Print Assumptions C17_single_rewind_then_append_overwrites.
 
 (* after Flush, Close and reopening with any valid options, every read and the size are what
    they were before the Close, provided the file holds nothing beyond the flushed offset *)
@@ -92,9 +92,9 @@ Print Assumptions C17_single_buffer_indices_in_range.
 
 (* multiapp: for EVERY operation sequence, every chunk size > 0 (appends spanning any number of
    chunks), buffer size, flush-when-full or retryableSync+autoSync, preallocation, read-only reopen:
-   as long as no step observes stale bytes (`m_clean`: no ReadAt that crosses the flushed offset,
-   or ends beyond the size, while the current chunk file is longer than its fileOffset or chunk
-   files beyond the current one exist; no reopen in such a state), every output equals the byte
+   as long as no step observes stale chunk files (`m_clean`: no ReadAt running past the end of the
+   current chunk while chunk files beyond the current one exist; no reopen while such files exist
+   or the current chunk file is longer than its fileOffset), every output equals the byte
    array's.  (`nocap`: not retryableSync without autoSync, see trusted_base.) *)
 Theorem C17_multi_refines_log_partial : forall fs pre meta o ops,
   0 < fs -> opts_valid o = true -> nocap o = true -> ops_nocap ops = true ->
@@ -104,8 +104,8 @@ Theorem C17_multi_refines_log_partial : forall fs pre meta o ops,
 Proof. exact multi_refines_log_partial. Qed.
 Print Assumptions C17_multi_refines_log_partial.
 
-(* without `m_clean` it is false on the current code, with no rewind at all: preallocated chunks,
-   append "abcd", Flush, append "ef", ReadAt(6 bytes at the chunk start) = "abcd\0\0" *)
+(* without `m_clean` it is false on the current code: chunk size 4, append 10 bytes, SetOffset 2
+   (Size 2), ReadAt(2 bytes, 4) returns "45" from the stale chunk file 1 *)
 Theorem C17_multi_refines_log_refuted : exists fs pre meta o ops,
   0 < fs /\ opts_valid o = true /\ nocap o = true /\ ops_nocap ops = true /\
   ~ Forall2 out_match (m_run (m_create fs pre meta o) ops)
